@@ -278,7 +278,7 @@ def run(F, chk):
     chk.floor(R5, 12, "(uses of block-index integers in functions that delete blocks)")
 
     # ---------------------------------------------------------------- R6.9 (= C04 R4.3 on the same facts)
-    chk.share(F, "c04", ["R4.3"], "R6.9",
+    chk.share(F, "c04", ["R4.3", "R4.8"], "R6.9",
               "SetBlockOrder applies one permutation, in one direction, to the block list and to every header table that is parallel "
               "to it (type indices, gated sizes) and to both reference kinds")
     chk.floor("R6.9", 6)
